@@ -7,7 +7,8 @@ import re
 
 from .utils import mcnp_float
 
-re_data = re.compile(r'^\s*(\**[a-zA-Z]+[^0-9]*)([0-9]*)(\*?)(.*)$')
+# the mnemonic may be preceded by `*` (*TR, *F8) or `+` (+F6, +F8)
+re_data = re.compile(r'^\s*([*+]*[a-zA-Z]+[^0-9]*)([0-9]*)(\*?)(.*)$')
 
 def split(txt):
     m = re_data.search(txt)
